@@ -158,7 +158,10 @@ impl Value {
 
     /// True if [Value](crate::val::Value) is a `false` (Bool)[crate::val::Bool]
     pub fn is_false(&self) -> bool {
-        !self.is_true()
+        match self {
+            Value::Bool(v) => !v.value,
+            _ => false,
+        }
     }
 
     /// Construct a `Bool` 'false' `Value`
